@@ -25,6 +25,15 @@
 //!   checks every `add_triangle` against the vertices emitted SO FAR: the run-time counterpart of
 //!   `Lyon.C05c.VSteps`), attributes-match-source (class `degenerate-subpath-after-curve`: finding
 //!   C05-empty-cap-stale-attributes).
+//!   `prog:32`  PROGRAMS on one `StrokeBuilder` object (`builder` / `builder_with_attributes`, and the one-shot
+//!              `tessellate_rectangle` / `_circle` / `_ellipse` / `_polygon`): several sub-paths interleaved with
+//!              the shape helpers (add_rectangle incl. thin / borderline / degenerate rectangles, add_circle,
+//!              add_ellipse, add_rounded_rectangle, add_polygon, add_line_segment, add_point) and the option
+//!              setters, fixed and variable width: the complete output compared with
+//!              `Model/Tess/StrokeBuilderProg.lean` (`tessellateProg`), and the per-vertex oracle of `stroke`
+//!              applied sub-path by sub-path with the options in force for that sub-path
+//!   `progf`    (oracle only) the same programs and plain paths at every entry point with a geometry builder that
+//!              refuses the k-th vertex (once, twice, from then on; every k): id clauses on whatever is emitted
 //! End-to-end family (oracle only, no model): `stroke` — the public `StrokeTessellator` entry
 //! points with a recording `BuffersBuilder`, all joins × caps × widths × miter limits ×
 //! tolerances × fixed/variable width on polylines, curves, degenerate sub-paths.
@@ -1012,8 +1021,25 @@ fn reach_factor(o: &StrokeOptions, polyline: bool, simple: bool) -> f64 {
     j.max(c).max(f) * v
 }
 
+/// the smallest speed `|B'(t)|`, `t` in `[0, 1]`, of a Bezier curve given by its control points (sampled)
+fn min_speed(ctrl: &[Point]) -> f32 {
+    let n = ctrl.len() - 1;
+    let d: Vec<(f64, f64)> = ctrl.windows(2).map(|w| ((w[1].x - w[0].x) as f64 * n as f64, (w[1].y - w[0].y) as f64 * n as f64)).collect();
+    let mut best = f64::INFINITY;
+    for k in 0..=512 {
+        let t = k as f64 / 512.0;
+        let mut c = d.clone();
+        while c.len() > 1 {
+            c = c.windows(2).map(|w| (w[0].0 + (w[1].0 - w[0].0) * t, w[0].1 + (w[1].1 - w[0].1) * t)).collect();
+        }
+        best = best.min(c[0].0.hypot(c[0].1));
+    }
+    best as f32
+}
+
 /// variable width only: some edge of the input is shorter than twice the larger line width at its ends
-/// (for a curve: some leg of its control polygon or its chord).  In that regime the end circles of an edge overlap or contain each
+/// (for a curve: some leg of its control polygon, its chord, or its smallest speed `|B'(t)|` - the length scale of
+/// its flattened pieces at a hairpin turn).  In that regime the end circles of an edge overlap or contain each
 /// other and the side lines (tangents to both circles) are ill-defined.
 fn short_edge_for_width(inp: &StrokeInput, base_width: f32) -> bool {
     for s in &inp.subs {
@@ -1024,9 +1050,12 @@ fn short_edge_for_width(inp: &StrokeInput, base_width: f32) -> bool {
                 let g = &s.segs[k];
                 let len = match g {
                     Seg::Line(p) => (*p - prev).length(),
-                    // a curve is flattened into pieces whose length follows the control polygon legs
-                    Seg::Quad(c, p) => (*c - prev).length().min((*p - *c).length()).min((*p - prev).length()),
-                    Seg::Cubic(c1, c2, p) => (*c1 - prev).length().min((*c2 - *c1).length()).min((*p - *c2).length()).min((*p - prev).length()),
+                    // a curve is flattened into pieces whose length follows the control polygon legs, and the
+                    // curve's speed |B'(t)| (for a line: its length): where the curve nearly stops - the sharp
+                    // turn of a hairpin - the flattened pieces are that short while the width goes on changing
+                    // linearly in t
+                    Seg::Quad(c, p) => (*c - prev).length().min((*p - *c).length()).min((*p - prev).length()).min(min_speed(&[prev, *c, *p])),
+                    Seg::Cubic(c1, c2, p) => (*c1 - prev).length().min((*c2 - *c1).length()).min((*p - *c2).length()).min((*p - prev).length()).min(min_speed(&[prev, *c1, *c2, *p])),
                 };
                 (g.to(), len, s.w[k + 1])
             } else if s.close {
@@ -1183,6 +1212,115 @@ fn stroke_case(ctx: &mut Ctx) {
     });
 }
 
+/// total length of a set of reference polylines
+fn polys_length(polys: &[Vec<(f64, f64)>]) -> f64 {
+    polys.iter().map(|v| v.windows(2).map(|w| ((w[1].0 - w[0].0).powi(2) + (w[1].1 - w[0].1).powi(2)).sqrt()).sum::<f64>()).sum()
+}
+
+/// what the per-vertex clauses of the end-to-end oracle are measured against: the sub-paths the
+/// vertices were emitted for (`inp`, with their reference polylines `polys`), the options in force,
+/// the endpoints / edges a source may name; `total_len`, `scale`, `n_curves` of the WHOLE input
+/// (advancement runs on from one sub-path to the next); `thr` = the builder's merge threshold
+struct VCheck<'a> {
+    inp: &'a StrokeInput,
+    options: &'a StrokeOptions,
+    factor: f64,
+    endpoint_pos: &'a std::collections::BTreeMap<u32, Point>,
+    edges: &'a [(u32, u32, Vec<Point>)],
+    polys: &'a [Vec<(f64, f64)>],
+    total_len: f64,
+    scale: f64,
+    max_w: f32,
+    n_curves: usize,
+    thr: f32,
+    attrs_len: usize,
+    /// index of `vs[0]` in the whole output (for the messages)
+    index0: usize,
+}
+
+/// the per-vertex clauses of the property on vertices of the public stroker: finite, position ==
+/// position_on_path + normal * line_width / 2, reported line width == the configured one (fixed width),
+/// reach, advancement range, source names an endpoint / edge of the input and position_on_path lies there
+fn check_vertices(orc: &mut Oracle, vs: &[RecV], c: &VCheck) {
+    let (inp, options) = (c.inp, c.options);
+    let variable = options.variable_line_width.is_some();
+    let (factor, endpoint_pos, edges, polys, total_len, scale, max_w, n_curves, thr) = (c.factor, c.endpoint_pos, c.edges, c.polys, c.total_len, c.scale, c.max_w, c.n_curves, c.thr);
+    let measure = std::env::var("C05_MEASURE").is_ok();
+    let reach_class = if variable && short_edge_for_width(inp, options.line_width) {
+        "variable-width-short-edge"
+    } else if miter_clip_below_resolution(inp, options) {
+        "miter-clip-width-below-resolution"
+    } else {
+        "generic"
+    };
+    let nan_class = if variable && !inp.polyline { "variable-width-curve" } else { "generic" };
+    for (k, v) in vs.iter().enumerate() {
+        let k = k + c.index0;
+        orc.check(fin(v.position) && finv(v.normal) && fin(v.pop) && v.line_width.is_finite(), "stroke/finite-position", nan_class, || format!("vertex {}: {:?}", k, v));
+        orc.check(v.advancement.is_finite(), "stroke/finite-advancement", "generic", || format!("vertex {}: {:?}", k, v));
+        if orc.failed() {
+            break;
+        }
+        orc.check(position_def_ok(v.position, v.pop, v.normal, v.line_width), "stroke/position-def", "generic", || format!("vertex {}: {:?}", k, v));
+        if !variable {
+            orc.check(v.line_width == options.line_width, "stroke/line-width", "generic", || format!("vertex {}: {} vs {}", k, v.line_width, options.line_width));
+        } else {
+            orc.check(v.line_width >= 0.0 && v.line_width <= options.line_width * max_w * 1.0001, "stroke/line-width", "generic", || format!("vertex {}: {} vs base {} × max factor {}", k, v.line_width, options.line_width, max_w));
+        }
+        // reach: |position - position_on_path| (position_on_path is validated against the source below),
+        // or, for vertices whose normal is long but which still hug an adjacent edge, the distance to the path
+        // variable width: the width at the foot point on an adjacent edge is between the widths of its two
+        // ends, so the reach is measured against the largest half width of the path
+        let hw = if variable { (options.line_width * max_w) as f64 * 0.5 } else { v.line_width as f64 * 0.5 };
+        let merge = (thr as f64).sqrt();
+        // rounding: the direction of a kept edge (length ≥ merge distance) carries a relative error of about
+        // eps × coordinate magnitude / edge length, and so do the cap and join corners built on it
+        let dir_err = (8.0 * f32::EPSILON as f64 * scale / merge).min(0.05);
+        let own = ((v.position.x as f64 - v.pop.x as f64).hypot(v.position.y as f64 - v.pop.y as f64), hw * factor * (1.001 + dir_err) + 1e-6 * scale);
+        let measured = if own.0 <= own.1 && !measure {
+            own
+        } else {
+            let d = dist_to_polys((v.position.x as f64, v.position.y as f64), &polys);
+            (d.min(own.0), hw * factor * (1.001 + dir_err) + options.tolerance as f64 * 1.05 + 1e-5 * scale + merge)
+        };
+        if measure {
+            eprintln!("MEAS {} {} {} {} {} {} {}", join_name(options.line_join), if variable { "variable" } else { "fixed" }, if inp.polyline { "polyline" } else { "curves" }, if inp.simple { "simple" } else { "any" }, measured.0 / hw.max(1e-30) / factor, options.miter_limit, reach_class);
+        }
+        orc.check(measured.0 <= measured.1, "stroke/reach", reach_class, || format!("vertex {}: distance {} > bound {} (half width {}, factor {}) {:?}", k, measured.0, measured.1, hw, factor, v));
+        // advancement range
+        orc.check(v.advancement >= -1e-3 && (v.advancement as f64) <= total_len * 1.005 + 4.0 * options.tolerance as f64 * n_curves as f64 + 1e-3 * scale + 1e-3, "stroke/advancement-range", "generic", || format!("vertex {}: advancement {} path length {}", k, v.advancement, total_len));
+        // source
+        match v.source {
+            VertexSource::Endpoint { id } => {
+                let p = endpoint_pos.get(&id.0);
+                orc.check(p.is_some(), "stroke/source-endpoint-valid", "generic", || format!("vertex {}: endpoint {:?} is not an endpoint of the input", k, id));
+                if let Some(p) = p {
+                    // a merged point keeps its own id but may be moved onto the point it was merged with (close())
+                    let dd = (p.x as f64 - v.pop.x as f64).hypot(p.y as f64 - v.pop.y as f64);
+                    orc.check(dd <= (thr as f64).sqrt() * 1.001, "stroke/source-endpoint-position", "generic", || format!("vertex {}: endpoint {:?} at {:?}, position_on_path {:?}", k, id, p, v.pop));
+                }
+            }
+            VertexSource::Edge { from, to, t } => {
+                let e = edges.iter().find(|e| e.0 == from.0 && e.1 == to.0);
+                orc.check(e.is_some(), "stroke/source-edge-valid", "generic", || format!("vertex {}: edge {:?}->{:?} is not an edge of the input", k, from, to));
+                orc.check(t > 0.0 && t < 1.0, "stroke/source-edge-t", "generic", || format!("vertex {}: t = {}", k, t));
+                if let Some(e) = e {
+                    let mut c: Vec<(f64, f64)> = e.2.iter().map(|p| (p.x as f64, p.y as f64)).collect();
+                    let tt = t as f64;
+                    while c.len() > 1 {
+                        c = c.windows(2).map(|w| (w[0].0 + (w[1].0 - w[0].0) * tt, w[0].1 + (w[1].1 - w[0].1) * tt)).collect();
+                    }
+                    let dd = ((c[0].0 - v.pop.x as f64).powi(2) + (c[0].1 - v.pop.y as f64).powi(2)).sqrt();
+                    // lyon flattens a cubic through quadratic approximations: the points are within the tolerance of the cubic
+                    orc.check(dd <= options.tolerance as f64 * 1.05 + 1e-5 * scale, "stroke/source-edge-position", "generic", || format!("vertex {}: curve({}) = {:?}, position_on_path {:?}", k, t, c[0], v.pop));
+                }
+            }
+        }
+        // attributes
+        orc.check(v.attrs.len() == c.attrs_len, "stroke/attributes-len", "generic", || format!("vertex {}: {} attributes", k, v.attrs.len()));
+    }
+}
+
 fn run_stroke(inp: &StrokeInput, options: &StrokeOptions, entry: usize, n_attr: usize, extra: &[f32]) -> CaseOut {
     let variable = options.variable_line_width.is_some();
     let path = build_path(inp, n_attr, extra);
@@ -1272,92 +1410,38 @@ fn run_stroke(inp: &StrokeInput, options: &StrokeOptions, entry: usize, n_attr: 
     }
 
     let polys = flatten64(inp, 0.02 * options.tolerance as f64);
-    let total_len: f64 = polys.iter().map(|v| v.windows(2).map(|w| ((w[1].0 - w[0].0).powi(2) + (w[1].1 - w[0].1).powi(2)).sqrt()).sum::<f64>()).sum();
+    let total_len: f64 = polys_length(&polys);
     let scale = polys.iter().flatten().fold(1.0f64, |m, p| m.max(p.0.abs()).max(p.1.abs()));
     let max_w = inp.subs.iter().flat_map(|s| s.w.iter()).fold(0.0f32, |m, w| m.max(*w));
     let factor = reach_factor(options, inp.polyline, inp.simple);
     let nv = mesh.vertices.len() as u32;
     // the reference polyline may step over a cusp of a curve: allow for it in the length
     let n_curves = inp.subs.iter().flat_map(|s| s.segs.iter()).filter(|g| !matches!(g, Seg::Line(_))).count();
-    let measure = std::env::var("C05_MEASURE").is_ok();
     let thr = (options.tolerance * options.tolerance * 0.5).min(options.line_width * options.line_width * 0.05).max(1e-8f32);
-    let reach_class = if variable && short_edge_for_width(inp, options.line_width) {
-        "variable-width-short-edge"
-    } else if miter_clip_below_resolution(inp, options) {
-        "miter-clip-width-below-resolution"
-    } else {
-        "generic"
-    };
-    let nan_class = if variable && !inp.polyline { "variable-width-curve" } else { "generic" };
 
     for t in mesh.indices.chunks(3) {
         orc.check(t.len() == 3 && t[0] != t[1] && t[1] != t[2] && t[0] != t[2], "stroke/distinct-ids", "generic", || format!("{:?}", t));
         orc.check(t.iter().all(|i| *i < nv), "stroke/valid-ids", "generic", || format!("{:?} of {}", t, nv));
     }
-    for (k, v) in mesh.vertices.iter().enumerate() {
-        orc.check(fin(v.position) && finv(v.normal) && fin(v.pop) && v.line_width.is_finite(), "stroke/finite-position", nan_class, || format!("vertex {}: {:?}", k, v));
-        orc.check(v.advancement.is_finite(), "stroke/finite-advancement", "generic", || format!("vertex {}: {:?}", k, v));
-        if orc.failed() {
-            break;
-        }
-        orc.check(position_def_ok(v.position, v.pop, v.normal, v.line_width), "stroke/position-def", "generic", || format!("vertex {}: {:?}", k, v));
-        if !variable {
-            orc.check(v.line_width == options.line_width, "stroke/line-width", "generic", || format!("vertex {}: {} vs {}", k, v.line_width, options.line_width));
-        } else {
-            orc.check(v.line_width >= 0.0 && v.line_width <= options.line_width * max_w * 1.0001, "stroke/line-width", "generic", || format!("vertex {}: {} vs base {} × max factor {}", k, v.line_width, options.line_width, max_w));
-        }
-        // reach: |position - position_on_path| (position_on_path is validated against the source below),
-        // or, for vertices whose normal is long but which still hug an adjacent edge, the distance to the path
-        // variable width: the width at the foot point on an adjacent edge is between the widths of its two
-        // ends, so the reach is measured against the largest half width of the path
-        let hw = if variable { (options.line_width * max_w) as f64 * 0.5 } else { v.line_width as f64 * 0.5 };
-        let merge = (thr as f64).sqrt();
-        // rounding: the direction of a kept edge (length ≥ merge distance) carries a relative error of about
-        // eps × coordinate magnitude / edge length, and so do the cap and join corners built on it
-        let dir_err = (8.0 * f32::EPSILON as f64 * scale / merge).min(0.05);
-        let own = ((v.position.x as f64 - v.pop.x as f64).hypot(v.position.y as f64 - v.pop.y as f64), hw * factor * (1.001 + dir_err) + 1e-6 * scale);
-        let measured = if own.0 <= own.1 && !measure {
-            own
-        } else {
-            let d = dist_to_polys((v.position.x as f64, v.position.y as f64), &polys);
-            (d.min(own.0), hw * factor * (1.001 + dir_err) + options.tolerance as f64 * 1.05 + 1e-5 * scale + merge)
-        };
-        if measure {
-            eprintln!("MEAS {} {} {} {} {} {} {}", join_name(options.line_join), if variable { "variable" } else { "fixed" }, if inp.polyline { "polyline" } else { "curves" }, if inp.simple { "simple" } else { "any" }, measured.0 / hw.max(1e-30) / factor, options.miter_limit, reach_class);
-        }
-        orc.check(measured.0 <= measured.1, "stroke/reach", reach_class, || format!("vertex {}: distance {} > bound {} (half width {}, factor {}) {:?}", k, measured.0, measured.1, hw, factor, v));
-        // advancement range
-        orc.check(v.advancement >= -1e-3 && (v.advancement as f64) <= total_len * 1.005 + 4.0 * options.tolerance as f64 * n_curves as f64 + 1e-3 * scale + 1e-3, "stroke/advancement-range", "generic", || format!("vertex {}: advancement {} path length {}", k, v.advancement, total_len));
-        // source
-        match v.source {
-            VertexSource::Endpoint { id } => {
-                let p = endpoint_pos.get(&id.0);
-                orc.check(p.is_some(), "stroke/source-endpoint-valid", "generic", || format!("vertex {}: endpoint {:?} is not an endpoint of the input", k, id));
-                if let Some(p) = p {
-                    // a merged point keeps its own id but may be moved onto the point it was merged with (close())
-                    let dd = (p.x as f64 - v.pop.x as f64).hypot(p.y as f64 - v.pop.y as f64);
-                    orc.check(dd <= (thr as f64).sqrt() * 1.001, "stroke/source-endpoint-position", "generic", || format!("vertex {}: endpoint {:?} at {:?}, position_on_path {:?}", k, id, p, v.pop));
-                }
-            }
-            VertexSource::Edge { from, to, t } => {
-                let e = edges.iter().find(|e| e.0 == from.0 && e.1 == to.0);
-                orc.check(e.is_some(), "stroke/source-edge-valid", "generic", || format!("vertex {}: edge {:?}->{:?} is not an edge of the input", k, from, to));
-                orc.check(t > 0.0 && t < 1.0, "stroke/source-edge-t", "generic", || format!("vertex {}: t = {}", k, t));
-                if let Some(e) = e {
-                    let mut c: Vec<(f64, f64)> = e.2.iter().map(|p| (p.x as f64, p.y as f64)).collect();
-                    let tt = t as f64;
-                    while c.len() > 1 {
-                        c = c.windows(2).map(|w| (w[0].0 + (w[1].0 - w[0].0) * tt, w[0].1 + (w[1].1 - w[0].1) * tt)).collect();
-                    }
-                    let dd = ((c[0].0 - v.pop.x as f64).powi(2) + (c[0].1 - v.pop.y as f64).powi(2)).sqrt();
-                    // lyon flattens a cubic through quadratic approximations: the points are within the tolerance of the cubic
-                    orc.check(dd <= options.tolerance as f64 * 1.05 + 1e-5 * scale, "stroke/source-edge-position", "generic", || format!("vertex {}: curve({}) = {:?}, position_on_path {:?}", k, t, c[0], v.pop));
-                }
-            }
-        }
-        // attributes
-        orc.check(v.attrs.len() == if entry == 1 || entry == 3 { 0 } else { n_attr }, "stroke/attributes-len", "generic", || format!("vertex {}: {} attributes", k, v.attrs.len()));
-    }
+    check_vertices(
+        &mut orc,
+        &mesh.vertices,
+        &VCheck {
+            inp,
+            options,
+            factor,
+            endpoint_pos: &endpoint_pos,
+            edges: &edges,
+            polys: &polys,
+            total_len,
+            scale,
+            max_w,
+            n_curves,
+            thr,
+            attrs_len: if entry == 1 || entry == 3 { 0 } else { n_attr },
+            index0: 0,
+        },
+    );
 
     // simple polylines: advancement is the arc length at the source endpoint, sides follow the normals
     if inp.simple && !orc.failed() {
@@ -1934,8 +2018,14 @@ fn fulle_case(ctx: &mut Ctx) {
             }
             args.t("E").b(s.close);
         }
+        // one case in three: the tessellator has been used before (another entry point, another attribute count)
+        let salt = rng.next();
+        let reused = salt % 3 == 0;
+        if reused {
+            args.t("reused-tessellator");
+        }
         let tag = format!(
-            "fulle {} {} {}/{} {} attrs={} {}",
+            "fulle {} {} {}/{} {} attrs={} {}{}",
             ENTRY[entry],
             join_name(join),
             cap_name(sc),
@@ -1943,10 +2033,14 @@ fn fulle_case(ctx: &mut Ctx) {
             if variable { "variable" } else { "fixed" },
             n_attr,
             inp.kind,
+            if reused { " reused-tessellator" } else { "" },
         );
         (args, tag, move || {
             let mut rec = EmitRec::default();
             let mut tess = StrokeTessellator::new();
+            if reused {
+                warm_up(&mut tess, salt);
+            }
             let res = match entry {
                 0 => tess.tessellate_path(&path, &options, &mut rec),
                 1 => tess.tessellate(path.iter(), &options, &mut rec),
@@ -2000,6 +2094,1025 @@ fn fulle_case(ctx: &mut Ctx) {
                     });
                 }
             }
+            CaseOut { imp: o, orcl: orc.verdict }
+        })
+    });
+}
+
+
+// ---------------------------------------------------------------------------------------------
+// PROGRAMS on one `StrokeBuilder` object (`StrokeTessellator::builder` / `builder_with_attributes`, and the
+// one-shot `tessellate_rectangle` / `_circle` / `_ellipse` / `_polygon` built on it): several sub-paths
+// interleaved with the shape helpers (add_rectangle incl. thin, borderline and degenerate rectangles,
+// add_circle, add_ellipse, add_rounded_rectangle, add_polygon, add_line_segment, add_point) and the option
+// setters (set_line_join, set_start_cap, set_end_cap, set_miter_limit - also inside a sub-path), fixed and
+// variable width.
+//   `prog:32`  un-faulted: the complete output compared bit for bit with `Model/Tess/StrokeBuilderProg.lean`
+//              (`tessellateProg`: the builder-level state that survives between calls = options, id counter,
+//              `self.prev`, the whole StrokeBuilderImpl), and the end-to-end per-vertex oracle applied PER
+//              SUB-PATH with the options in force for that sub-path (a thin rectangle is stroked, as documented
+//              in stroke.rs, as its centre segment with `line_width + thickness / 2` and square / round caps;
+//              every other sub-path must report the configured line width)
+//   `progf`    (oracle only) the same programs, and plain paths through the iterator entry points, with a
+//              geometry builder that REFUSES the k-th vertex - once, twice or from then on, InvalidVertex or
+//              TooManyVertices - for every k: whatever is emitted, before or after the refusal, must be
+//              triangles with three distinct ids that were returned by an earlier add_stroke_vertex
+
+use lyon_path::geom::{Angle, Box2D, LineSegment};
+use lyon_path::{Polygon, Winding};
+use lyon_path::builder::BorderRadii;
+use std::cell::Cell;
+use std::rc::Rc;
+
+/// one call on the builder; the last field of the path / shape calls is the width factor (custom attribute 0)
+#[derive(Clone, Debug)]
+enum Cmd {
+    Begin(Point, f32),
+    Line(Point, f32),
+    Quad(Point, Point, f32),
+    Cubic(Point, Point, Point, f32),
+    End(bool),
+    Rect(Box2D<f32>, bool, f32),
+    Polygon(Vec<Point>, bool, f32),
+    Segment(Point, Point, f32),
+    PointAt(Point, f32),
+    Circle(Point, f32, bool, f32),
+    Ellipse(Point, Vector, f32, bool, f32),
+    RoundRect(Box2D<f32>, [f32; 4], bool, f32),
+    SetJoin(LineJoin),
+    SetStartCap(LineCap),
+    SetEndCap(LineCap),
+    SetMiterLimit(f32),
+}
+
+/// what the model is told: the calls with the lyon_path-generic helpers (circle, ellipse, rounded rectangle)
+/// expanded into the begin / line_to / curve / end calls they make
+#[derive(Clone, Debug)]
+enum Op {
+    Begin(Point, Vec<f32>),
+    Line(Point, Vec<f32>),
+    Quad(Point, Point, Vec<f32>),
+    Cubic(Point, Point, Point, Vec<f32>),
+    End(bool),
+    Rect(Box2D<f32>, bool, Vec<f32>),
+    Polygon(Vec<Point>, bool, Vec<f32>),
+    Segment(Point, Point, Vec<f32>),
+    PointAt(Point, Vec<f32>),
+    SetJoin(LineJoin),
+    SetStartCap(LineCap),
+    SetEndCap(LineCap),
+    SetMiterLimit(f32),
+}
+
+fn winding(positive: bool) -> Winding {
+    if positive {
+        Winding::Positive
+    } else {
+        Winding::Negative
+    }
+}
+
+fn radii_of(r: &[f32; 4]) -> BorderRadii {
+    BorderRadii { top_left: r[0], top_right: r[1], bottom_left: r[2], bottom_right: r[3] }
+}
+
+/// records the begin / line_to / curve / end calls a generic `PathBuilder` helper makes
+struct Expand {
+    n_attr: usize,
+    ops: Vec<Op>,
+    next: u32,
+}
+
+impl PathBuilder for Expand {
+    fn num_attributes(&self) -> usize {
+        self.n_attr
+    }
+    fn begin(&mut self, at: Point, a: &[f32]) -> EndpointId {
+        self.ops.push(Op::Begin(at, a.to_vec()));
+        self.next += 1;
+        EndpointId(self.next - 1)
+    }
+    fn end(&mut self, close: bool) {
+        self.ops.push(Op::End(close));
+    }
+    fn line_to(&mut self, to: Point, a: &[f32]) -> EndpointId {
+        self.ops.push(Op::Line(to, a.to_vec()));
+        self.next += 1;
+        EndpointId(self.next - 1)
+    }
+    fn quadratic_bezier_to(&mut self, ctrl: Point, to: Point, a: &[f32]) -> EndpointId {
+        self.ops.push(Op::Quad(ctrl, to, a.to_vec()));
+        self.next += 1;
+        EndpointId(self.next - 1)
+    }
+    fn cubic_bezier_to(&mut self, c1: Point, c2: Point, to: Point, a: &[f32]) -> EndpointId {
+        self.ops.push(Op::Cubic(c1, c2, to, a.to_vec()));
+        self.next += 1;
+        EndpointId(self.next - 1)
+    }
+}
+
+/// the calls `cmd` makes, as the model sees them
+fn ops_of(cmd: &Cmd, n_attr: usize, extra: &[f32]) -> Vec<Op> {
+    let at = |w: f32| -> Vec<f32> {
+        let mut a = vec![w];
+        a.extend_from_slice(extra);
+        a.truncate(n_attr);
+        a
+    };
+    let mut ex = Expand { n_attr, ops: Vec::new(), next: 0 };
+    match cmd {
+        Cmd::Begin(p, w) => vec![Op::Begin(*p, at(*w))],
+        Cmd::Line(p, w) => vec![Op::Line(*p, at(*w))],
+        Cmd::Quad(c, p, w) => vec![Op::Quad(*c, *p, at(*w))],
+        Cmd::Cubic(c1, c2, p, w) => vec![Op::Cubic(*c1, *c2, *p, at(*w))],
+        Cmd::End(c) => vec![Op::End(*c)],
+        Cmd::Rect(r, pos, w) => vec![Op::Rect(*r, *pos, at(*w))],
+        Cmd::Polygon(pts, closed, w) => vec![Op::Polygon(pts.clone(), *closed, at(*w))],
+        Cmd::Segment(p, q, w) => vec![Op::Segment(*p, *q, at(*w))],
+        Cmd::PointAt(p, w) => vec![Op::PointAt(*p, at(*w))],
+        Cmd::Circle(c, r, pos, w) => {
+            ex.add_circle(*c, *r, winding(*pos), &at(*w));
+            ex.ops
+        }
+        Cmd::Ellipse(c, r, rot, pos, w) => {
+            ex.add_ellipse(*c, *r, Angle::radians(*rot), winding(*pos), &at(*w));
+            ex.ops
+        }
+        Cmd::RoundRect(b, r, pos, w) => {
+            ex.add_rounded_rectangle(b, &radii_of(r), winding(*pos), &at(*w));
+            ex.ops
+        }
+        Cmd::SetJoin(j) => vec![Op::SetJoin(*j)],
+        Cmd::SetStartCap(c) => vec![Op::SetStartCap(*c)],
+        Cmd::SetEndCap(c) => vec![Op::SetEndCap(*c)],
+        Cmd::SetMiterLimit(m) => vec![Op::SetMiterLimit(*m)],
+    }
+}
+
+fn put_ops(args: &mut Out, ops: &[Op]) {
+    let fl = |args: &mut Out, a: &[f32]| {
+        for x in a {
+            args.f(*x);
+        }
+    };
+    for op in ops {
+        match op {
+            Op::Begin(p, a) => {
+                args.t("B").p(*p);
+                fl(args, a);
+            }
+            Op::Line(p, a) => {
+                args.t("L").p(*p);
+                fl(args, a);
+            }
+            Op::Quad(c, p, a) => {
+                args.t("Q").p(*c).p(*p);
+                fl(args, a);
+            }
+            Op::Cubic(c1, c2, p, a) => {
+                args.t("C").p(*c1).p(*c2).p(*p);
+                fl(args, a);
+            }
+            Op::End(c) => {
+                args.t("E").b(*c);
+            }
+            Op::Rect(r, pos, a) => {
+                args.t("R").p(r.min).p(r.max).b(*pos);
+                fl(args, a);
+            }
+            Op::Polygon(pts, closed, a) => {
+                args.t("P").u(pts.len() as u64).b(*closed);
+                for p in pts {
+                    args.p(*p);
+                }
+                fl(args, a);
+            }
+            Op::Segment(p, q, a) => {
+                args.t("S").p(*p).p(*q);
+                fl(args, a);
+            }
+            Op::PointAt(p, a) => {
+                args.t("O").p(*p);
+                fl(args, a);
+            }
+            Op::SetJoin(j) => {
+                args.t("SJ").t(join_name(*j));
+            }
+            Op::SetStartCap(c) => {
+                args.t("SS").t(cap_name(*c));
+            }
+            Op::SetEndCap(c) => {
+                args.t("SE").t(cap_name(*c));
+            }
+            Op::SetMiterLimit(m) => {
+                args.t("SM").f(*m);
+            }
+        }
+    }
+}
+
+/// one sub-path as the stroker is asked to stroke it: the geometry, the ids of its endpoints (`first_id`
+/// upwards: what the builder's attribute store hands out), the custom attributes per endpoint, and every
+/// options record in force while it was built (`opts[0]` at its begin, the last one at its end)
+#[derive(Clone, Debug)]
+struct Piece {
+    sub: Sub,
+    first_id: u32,
+    attrs: Vec<Vec<f32>>,
+    opts: Vec<StrokeOptions>,
+    kind: &'static str,
+}
+
+/// `StrokeBuilder::add_rectangle`'s test, and `approximate_thin_rectangle`'s segment and widening, restated
+/// from the comments in stroke.rs (same f32 expressions): `Some((from, to, d))` if the rectangle is replaced
+/// by its centre segment stroked `d` wider
+fn thin_rectangle(o: &StrokeOptions, r: &Box2D<f32>) -> Option<(Point, Point, f32)> {
+    let threshold = if o.line_join == LineJoin::Miter { 1.0 } else { 0.05 } * o.line_width;
+    if o.variable_line_width.is_some() || !(r.width().abs() < threshold || r.height().abs() < threshold) {
+        return None;
+    }
+    Some(if r.width() > r.height() {
+        let d = r.height() * 0.5;
+        let y = (r.min.y + r.max.y) * 0.5;
+        (point(r.min.x + d, y), point(r.max.x - d, y), d)
+    } else {
+        let d = r.width() * 0.5;
+        let x = (r.min.x + r.max.x) * 0.5;
+        (point(x, r.min.y + d), point(x, r.max.y - d), d)
+    })
+}
+
+/// the sub-paths a program makes the stroker stroke
+fn pieces_of(ops: &[Op], options: &StrokeOptions) -> Vec<Piece> {
+    let mut o = *options;
+    let mut next_id = 0u32;
+    let mut out: Vec<Piece> = Vec::new();
+    let mut cur: Option<Piece> = None;
+    let w0 = |a: &Vec<f32>| a.first().cloned().unwrap_or(1.0);
+    let poly = |pts: &[Point], closed: bool, a: &Vec<f32>, first_id: u32, o: StrokeOptions, kind: &'static str| Piece {
+        sub: Sub { start: pts[0], segs: pts[1..].iter().map(|p| Seg::Line(*p)).collect(), close: closed, w: vec![w0(a); pts.len()] },
+        first_id,
+        attrs: vec![a.clone(); pts.len()],
+        opts: vec![o],
+        kind,
+    };
+    for op in ops {
+        match op {
+            Op::Begin(p, a) => {
+                cur = Some(Piece { sub: Sub { start: *p, segs: Vec::new(), close: false, w: vec![w0(a)] }, first_id: next_id, attrs: vec![a.clone()], opts: vec![o], kind: "path" });
+                next_id += 1;
+            }
+            Op::Line(p, a) | Op::Quad(_, p, a) | Op::Cubic(_, _, p, a) => {
+                if let Some(c) = cur.as_mut() {
+                    c.sub.segs.push(match op {
+                        Op::Line(..) => Seg::Line(*p),
+                        Op::Quad(ct, ..) => Seg::Quad(*ct, *p),
+                        Op::Cubic(c1, c2, ..) => Seg::Cubic(*c1, *c2, *p),
+                        _ => unreachable!(),
+                    });
+                    c.sub.w.push(w0(a));
+                    c.attrs.push(a.clone());
+                }
+                next_id += 1;
+            }
+            Op::End(close) => {
+                if let Some(mut c) = cur.take() {
+                    c.sub.close = *close;
+                    c.opts.push(o);
+                    out.push(c);
+                }
+            }
+            Op::Rect(r, positive, a) => match thin_rectangle(&o, r) {
+                Some((from, to, d)) => {
+                    let mut t = o;
+                    t.line_width += d;
+                    let cap = if o.line_join == LineJoin::Round { LineCap::Round } else { LineCap::Square };
+                    t.start_cap = cap;
+                    t.end_cap = cap;
+                    out.push(poly(&[from, to], false, a, next_id, t, "thin-rectangle"));
+                    next_id += 2;
+                }
+                None => {
+                    let c = if *positive {
+                        [r.min, point(r.max.x, r.min.y), r.max, point(r.min.x, r.max.y)]
+                    } else {
+                        [r.min, point(r.min.x, r.max.y), r.max, point(r.max.x, r.min.y)]
+                    };
+                    out.push(poly(&c, true, a, next_id, o, "rectangle"));
+                    next_id += 4;
+                }
+            },
+            Op::Polygon(pts, closed, a) => {
+                if !pts.is_empty() {
+                    out.push(poly(pts, *closed, a, next_id, o, "polygon"));
+                    next_id += pts.len() as u32;
+                }
+            }
+            Op::Segment(p, q, a) => {
+                out.push(poly(&[*p, *q], false, a, next_id, o, "segment"));
+                next_id += 2;
+            }
+            Op::PointAt(p, a) => {
+                out.push(poly(&[*p], false, a, next_id, o, "point"));
+                next_id += 1;
+            }
+            Op::SetJoin(j) => o.line_join = *j,
+            Op::SetStartCap(c) => o.start_cap = *c,
+            Op::SetEndCap(c) => o.end_cap = *c,
+            Op::SetMiterLimit(m) => o.miter_limit = *m,
+        }
+        if matches!(op, Op::SetJoin(_) | Op::SetStartCap(_) | Op::SetEndCap(_) | Op::SetMiterLimit(_)) {
+            if let Some(c) = cur.as_mut() {
+                c.opts.push(o);
+            }
+        }
+    }
+    out
+}
+
+/// how the geometry builder of a faulted run refuses: vertex calls `at .. at + count` (0-based) fail
+#[derive(Clone, Copy, Debug)]
+struct Fault {
+    at: u32,
+    count: u32,
+    too_many: bool,
+}
+
+/// recording geometry builder of the program families: every accessor of every vertex, the sub-path
+/// (`piece`) each vertex was emitted for, every triangle checked AT EMISSION TIME against the ids handed out so
+/// far, and optionally a fault
+struct ProgRec {
+    rec: hk::Rec,
+    piece_of: Vec<u32>,
+    early: Vec<(u32, u32, u32, u32)>,
+    cur: Rc<Cell<u32>>,
+    calls: u32,
+    refused: u32,
+    fault: Option<Fault>,
+}
+
+impl ProgRec {
+    fn new(cur: Rc<Cell<u32>>, fault: Option<Fault>) -> ProgRec {
+        ProgRec { rec: hk::Rec::default(), piece_of: Vec::new(), early: Vec::new(), cur, calls: 0, refused: 0, fault }
+    }
+}
+
+impl GeometryBuilder for ProgRec {
+    fn add_triangle(&mut self, a: VertexId, b: VertexId, c: VertexId) {
+        let n = self.rec.vertices.len() as u32;
+        if a.0 >= n || b.0 >= n || c.0 >= n {
+            self.early.push((a.0, b.0, c.0, n));
+        }
+        self.rec.triangles.push((a.0, b.0, c.0));
+    }
+}
+
+impl StrokeGeometryBuilder for ProgRec {
+    fn add_stroke_vertex(&mut self, mut v: StrokeVertex) -> Result<VertexId, GeometryBuilderError> {
+        let k = self.calls;
+        self.calls += 1;
+        if let Some(f) = self.fault {
+            if k >= f.at && k - f.at < f.count {
+                self.refused += 1;
+                return Err(if f.too_many { GeometryBuilderError::TooManyVertices } else { GeometryBuilderError::InvalidVertex });
+            }
+        }
+        self.rec.vertices.push(hk::read_vertex(&mut v));
+        self.piece_of.push(self.cur.get());
+        self.rec.next_id += 1;
+        Ok(VertexId(self.rec.next_id - 1))
+    }
+}
+
+/// the call-history dimension on the `StrokeTessellator` OBJECT: an earlier, unrelated tessellation on the
+/// same tessellator (another entry point, usually MORE custom attributes, curves, possibly a builder that was
+/// refused a vertex) before the one under test.  The property quantifies over inputs and configurations, not
+/// over what the tessellator did before: the output must be that of a fresh tessellator (the tie compares it
+/// with the model of a fresh one).  Returns a description for the tag.
+fn warm_up(tess: &mut StrokeTessellator, salt: u64) {
+    let mut rng = Rng::new(salt, 1);
+    let n_attr = rng.range(1, 5) as usize;
+    let variable = rng.chance(1, 3);
+    let mut options = StrokeOptions::tolerance(rng.uniform(0.02, 0.5) as f32).with_line_width(rng.uniform(0.5, 8.0) as f32).with_line_join(gen_join_kind(&mut rng)).with_line_cap(gen_cap(&mut rng));
+    if variable {
+        options = options.with_variable_line_width(0);
+    }
+    let inp = gen_curvy_input(&mut rng, options.line_width);
+    let extra = [0.25f32, -3.0, 7.5, 11.0];
+    let fault = if rng.chance(1, 4) { Some(Fault { at: rng.below(12) as u32, count: if rng.chance(1, 2) { 1 } else { u32::MAX }, too_many: rng.chance(1, 2) }) } else { None };
+    let mut rec = ProgRec::new(Rc::new(Cell::new(0)), fault);
+    let path = build_path(&inp, n_attr, &extra);
+    let _ = match rng.below(4) {
+        0 => tess.tessellate_path(&path, &options, &mut rec),
+        1 => tess.tessellate_with_ids(path.id_iter(), &path, Some(&path), &options, &mut rec),
+        2 => {
+            let mut b = tess.builder_with_attributes(n_attr, &options, &mut rec);
+            drive_builder(&mut b, &inp, n_attr, &extra);
+            lyon_path::traits::Build::build(b)
+        }
+        _ => {
+            // a builder that is dropped without build()
+            let mut b = tess.builder_with_attributes(n_attr, &options, &mut rec);
+            drive_builder(&mut b, &inp, n_attr, &extra);
+            Ok(())
+        }
+    };
+}
+
+const PROG_ENTRY: [&str; 6] = ["builder", "builder_with_attributes", "tessellate_rectangle", "tessellate_circle", "tessellate_ellipse", "tessellate_polygon"];
+
+/// the program on the real builder; `cur` is advanced after every call that completes a sub-path
+fn run_program(tess: &mut StrokeTessellator, cmds: &[Cmd], options: &StrokeOptions, entry: usize, n_attr: usize, extra: &[f32], rec: &mut ProgRec) -> Result<(), lyon_tessellation::TessellationError> {
+    let cur = rec.cur.clone();
+    let done = |n: usize| cur.set(cur.get() + n as u32);
+    // how many sub-paths a call completes
+    let subpaths = |c: &Cmd| ops_of(c, n_attr, extra).iter().map(|o| match o {
+        Op::End(_) | Op::Rect(..) | Op::Segment(..) | Op::PointAt(..) => 1,
+        Op::Polygon(pts, ..) => (!pts.is_empty()) as usize,
+        _ => 0,
+    }).sum::<usize>();
+    match entry {
+        0 => {
+            let mut b = tess.builder(options, rec);
+            for c in cmds {
+                match c {
+                    Cmd::Begin(p, _) => {
+                        b.begin(*p);
+                    }
+                    Cmd::Line(p, _) => {
+                        b.line_to(*p);
+                    }
+                    Cmd::Quad(ct, p, _) => {
+                        b.quadratic_bezier_to(*ct, *p);
+                    }
+                    Cmd::Cubic(c1, c2, p, _) => {
+                        b.cubic_bezier_to(*c1, *c2, *p);
+                    }
+                    Cmd::End(close) => b.end(*close),
+                    Cmd::Rect(r, pos, _) => b.add_rectangle(r, winding(*pos)),
+                    Cmd::Polygon(pts, closed, _) => b.add_polygon(Polygon { points: &pts[..], closed: *closed }),
+                    Cmd::Segment(p, q, _) => {
+                        b.add_line_segment(&LineSegment { from: *p, to: *q });
+                    }
+                    Cmd::PointAt(p, _) => {
+                        b.add_point(*p);
+                    }
+                    Cmd::Circle(ce, r, pos, _) => b.add_circle(*ce, *r, winding(*pos)),
+                    Cmd::Ellipse(ce, r, rot, pos, _) => b.add_ellipse(*ce, *r, Angle::radians(*rot), winding(*pos)),
+                    Cmd::RoundRect(bx, r, pos, _) => b.add_rounded_rectangle(bx, &radii_of(r), winding(*pos)),
+                    Cmd::SetJoin(j) => b.inner_mut().set_line_join(*j),
+                    Cmd::SetStartCap(cp) => b.inner_mut().set_start_cap(*cp),
+                    Cmd::SetEndCap(cp) => b.inner_mut().set_end_cap(*cp),
+                    Cmd::SetMiterLimit(m) => b.inner_mut().set_miter_limit(*m),
+                }
+                done(subpaths(c));
+            }
+            lyon_path::traits::Build::build(b)
+        }
+        1 => {
+            let mut b = tess.builder_with_attributes(n_attr, options, rec);
+            let at = |w: f32| -> Vec<f32> {
+                let mut a = vec![w];
+                a.extend_from_slice(extra);
+                a.truncate(n_attr);
+                a
+            };
+            for c in cmds {
+                match c {
+                    Cmd::Begin(p, w) => {
+                        b.begin(*p, &at(*w));
+                    }
+                    Cmd::Line(p, w) => {
+                        b.line_to(*p, &at(*w));
+                    }
+                    Cmd::Quad(ct, p, w) => {
+                        b.quadratic_bezier_to(*ct, *p, &at(*w));
+                    }
+                    Cmd::Cubic(c1, c2, p, w) => {
+                        b.cubic_bezier_to(*c1, *c2, *p, &at(*w));
+                    }
+                    Cmd::End(close) => b.end(*close),
+                    Cmd::Rect(r, pos, w) => b.add_rectangle(r, winding(*pos), &at(*w)),
+                    Cmd::Polygon(pts, closed, w) => b.add_polygon(Polygon { points: &pts[..], closed: *closed }, &at(*w)),
+                    Cmd::Segment(p, q, w) => {
+                        b.add_line_segment(&LineSegment { from: *p, to: *q }, &at(*w));
+                    }
+                    Cmd::PointAt(p, w) => {
+                        b.add_point(*p, &at(*w));
+                    }
+                    Cmd::Circle(ce, r, pos, w) => b.add_circle(*ce, *r, winding(*pos), &at(*w)),
+                    Cmd::Ellipse(ce, r, rot, pos, w) => b.add_ellipse(*ce, *r, Angle::radians(*rot), winding(*pos), &at(*w)),
+                    Cmd::RoundRect(bx, r, pos, w) => b.add_rounded_rectangle(bx, &radii_of(r), winding(*pos), &at(*w)),
+                    Cmd::SetJoin(j) => b.set_line_join(*j),
+                    Cmd::SetStartCap(cp) => b.set_start_cap(*cp),
+                    Cmd::SetEndCap(cp) => b.set_end_cap(*cp),
+                    Cmd::SetMiterLimit(m) => b.set_miter_limit(*m),
+                }
+                done(subpaths(c));
+            }
+            lyon_path::traits::Build::build(b)
+        }
+        // the one-shot shape entry points: the program is that one call
+        _ => match &cmds[0] {
+            Cmd::Rect(r, _, _) => tess.tessellate_rectangle(r, options, rec),
+            Cmd::Circle(ce, r, _, _) => tess.tessellate_circle(*ce, *r, options, rec),
+            Cmd::Ellipse(ce, r, rot, pos, _) => tess.tessellate_ellipse(*ce, *r, Angle::radians(*rot), winding(*pos), options, rec),
+            Cmd::Polygon(pts, closed, _) => tess.tessellate_polygon(Polygon { points: &pts[..], closed: *closed }, options, rec),
+            _ => unreachable!(),
+        },
+    }
+}
+
+
+/// the raw sub-paths of a generated input as begin / line_to / curve / end calls; with probability 1/4 an
+/// option setter is called INSIDE a sub-path
+fn push_subs(rng: &mut Rng, cmds: &mut Vec<Cmd>, subs: &[Sub]) {
+    for s in subs {
+        cmds.push(Cmd::Begin(s.start, s.w[0]));
+        for (k, g) in s.segs.iter().enumerate() {
+            if rng.chance(1, 12) {
+                cmds.push(gen_setter(rng));
+            }
+            cmds.push(match g {
+                Seg::Line(p) => Cmd::Line(*p, s.w[k + 1]),
+                Seg::Quad(c, p) => Cmd::Quad(*c, *p, s.w[k + 1]),
+                Seg::Cubic(c1, c2, p) => Cmd::Cubic(*c1, *c2, *p, s.w[k + 1]),
+            });
+        }
+        if rng.chance(1, 12) {
+            cmds.push(gen_setter(rng));
+        }
+        cmds.push(Cmd::End(s.close));
+    }
+}
+
+fn gen_setter(rng: &mut Rng) -> Cmd {
+    match rng.below(4) {
+        0 => Cmd::SetJoin(gen_join_kind(rng)),
+        1 => Cmd::SetStartCap(gen_cap(rng)),
+        2 => Cmd::SetEndCap(gen_cap(rng)),
+        _ => Cmd::SetMiterLimit(*rng.pick(&[1.0f32, 1.2, 2.0, 4.0, 10.0])),
+    }
+}
+
+/// axis-aligned boxes: ordinary, thin in one direction (around both thin-rectangle thresholds `line_width`
+/// and `0.05 x line_width`), of zero thickness, tiny in both directions, a point
+fn gen_box(rng: &mut Rng, width: f32, scale: f32, lattice: bool) -> Box2D<f32> {
+    let c = if lattice {
+        point(rng.range(-6, 6) as f32 * scale * 0.125, rng.range(-6, 6) as f32 * scale * 0.125)
+    } else {
+        point(rng.uniform(-1.0, 1.0) as f32 * scale, rng.uniform(-1.0, 1.0) as f32 * scale)
+    };
+    let long = if lattice { rng.range(1, 8) as f32 * scale * 0.125 } else { scale * rng.uniform(0.05, 1.5) as f32 };
+    let thin = |rng: &mut Rng| width * *rng.pick(&[1.0f32, 0.05]) * rng.uniform(0.0, 1.25) as f32;
+    let (w, h) = match rng.below(10) {
+        0 | 1 | 2 => (long, thin(rng)),
+        3 | 4 => (thin(rng), long),
+        5 => (long, 0.0),
+        6 => (thin(rng), thin(rng)),
+        7 => (0.0, 0.0),
+        _ => (long, if lattice { rng.range(1, 8) as f32 * scale * 0.125 } else { scale * rng.uniform(0.05, 1.5) as f32 }),
+    };
+    Box2D { min: c, max: point(c.x + w, c.y + h) }
+}
+
+/// a program: `n` shape-level items on one builder
+fn gen_program(rng: &mut Rng, width: f32, thr: f32, variable: bool, shape_only: Option<usize>) -> Vec<Cmd> {
+    let scale = match rng.below(8) {
+        0 => 10f64.powf(rng.uniform(-1.0, 0.0)),
+        1 => 10f64.powf(rng.uniform(2.0, 3.0)),
+        _ => rng.uniform(5.0, 60.0),
+    } as f32;
+    let lattice = rng.chance(1, 4);
+    let rp = |rng: &mut Rng| -> Point {
+        if lattice {
+            point(rng.range(-6, 6) as f32 * scale * 0.125, rng.range(-6, 6) as f32 * scale * 0.125)
+        } else {
+            point(rng.uniform(-1.0, 1.0) as f32 * scale, rng.uniform(-1.0, 1.0) as f32 * scale)
+        }
+    };
+    let wf = |rng: &mut Rng| if variable { rng.uniform(0.3, 2.5) as f32 } else { 1.0 };
+    let radius = |rng: &mut Rng| match rng.below(6) {
+        0 => 0.0,
+        1 => thr.sqrt() * rng.uniform(0.0, 3.0) as f32,
+        2 => width * rng.uniform(0.05, 1.5) as f32,
+        _ => scale * rng.uniform(0.05, 1.0) as f32,
+    };
+    let mut cmds = Vec::new();
+    let n = if shape_only.is_some() { 1 } else { rng.range(1, 6) };
+    for _ in 0..n {
+        let kind = match shape_only {
+            Some(2) => 5,
+            Some(3) => 8,
+            Some(4) => 9,
+            Some(_) => 11,
+            None => rng.below(17),
+        };
+        match kind {
+            0..=4 => {
+                // a generated path: its sub-paths
+                let inp = match rng.below(3) {
+                    0 => gen_stroke_input(rng, width * if variable { 2.5 } else { 1.0 }, thr),
+                    1 => gen_curvy_input(rng, width),
+                    _ => {
+                        let subs = gen_polyline_subs(rng, width, thr, 1.0, lattice);
+                        StrokeInput {
+                            subs: subs
+                                .into_iter()
+                                .map(|(pts, close)| Sub { start: pts[0], segs: pts[1..].iter().map(|p| Seg::Line(*p)).collect(), close, w: pts.iter().map(|_| rng.uniform(0.3, 2.5) as f32).collect() })
+                                .collect(),
+                            kind: String::new(),
+                            polyline: true,
+                            simple: false,
+                        }
+                    }
+                };
+                let subs: Vec<Sub> = inp.subs.into_iter().map(|mut s| {
+                    if !variable {
+                        for w in s.w.iter_mut() {
+                            *w = 1.0;
+                        }
+                    }
+                    s
+                }).collect();
+                push_subs(rng, &mut cmds, &subs);
+            }
+            5..=7 => {
+                let positive = shape_only.is_some() || rng.chance(1, 2);
+                cmds.push(Cmd::Rect(gen_box(rng, width, scale, lattice), positive, wf(rng)));
+            }
+            8 => {
+                let r = radius(rng) * if shape_only.is_none() && rng.chance(1, 6) { -1.0 } else { 1.0 };
+                cmds.push(Cmd::Circle(rp(rng), r, shape_only.is_some() || rng.chance(1, 2), wf(rng)));
+            }
+            9 => cmds.push(Cmd::Ellipse(rp(rng), vector(radius(rng), radius(rng)), rng.uniform(-4.0, 4.0) as f32, rng.chance(1, 2), wf(rng))),
+            10 => {
+                let b = gen_box(rng, width, scale, lattice);
+                let m = b.width().min(b.height());
+                let mut r = [0.0f32; 4];
+                for x in r.iter_mut() {
+                    *x = match rng.below(5) {
+                        0 => 0.0,
+                        1 => m * rng.uniform(0.5, 2.0) as f32,
+                        2 => -m * rng.uniform(0.0, 0.5) as f32,
+                        _ => m * rng.uniform(0.0, 0.5) as f32,
+                    };
+                }
+                cmds.push(Cmd::RoundRect(b, r, rng.chance(1, 2), wf(rng)));
+            }
+            11 => {
+                let k = if shape_only.is_some() { rng.below(7) } else { rng.below(6) } as usize;
+                let mut pts: Vec<Point> = Vec::new();
+                for _ in 0..k {
+                    let p = match (rng.below(8), pts.last()) {
+                        (0, Some(l)) => *l,
+                        (1, Some(l)) => *l + vector(thr.sqrt() * rng.uniform(-1.5, 1.5) as f32, thr.sqrt() * rng.uniform(-1.5, 1.5) as f32),
+                        (2, Some(l)) => *l + vector(width * rng.uniform(-0.6, 0.6) as f32, width * rng.uniform(-0.6, 0.6) as f32),
+                        _ => rp(rng),
+                    };
+                    pts.push(p);
+                }
+                cmds.push(Cmd::Polygon(pts, rng.chance(1, 2), wf(rng)));
+            }
+            12 => {
+                let p = rp(rng);
+                let q = match rng.below(4) {
+                    0 => p,
+                    1 => p + vector(thr.sqrt() * rng.uniform(-1.5, 1.5) as f32, 0.0),
+                    _ => rp(rng),
+                };
+                cmds.push(Cmd::Segment(p, q, wf(rng)));
+            }
+            13 => cmds.push(Cmd::PointAt(rp(rng), wf(rng))),
+            _ => cmds.push(gen_setter(rng)),
+        }
+    }
+    cmds
+}
+
+/// everything a program case needs
+struct ProgInput {
+    cmds: Vec<Cmd>,
+    options: StrokeOptions,
+    entry: usize,
+    n_attr: usize,
+    extra: [f32; 2],
+    ops: Vec<Op>,
+    pieces: Vec<Piece>,
+}
+
+fn gen_prog_input(rng: &mut Rng) -> ProgInput {
+    let width = match rng.below(8) {
+        0 => 10f64.powf(rng.uniform(-2.0, -0.5)),
+        1 => 10f64.powf(rng.uniform(1.3, 2.5)),
+        _ => rng.uniform(0.2, 12.0),
+    } as f32;
+    let tol = match rng.below(6) {
+        0 => 10f64.powf(rng.uniform(-3.0, -1.5)),
+        1 => rng.uniform(0.5, 3.0),
+        _ => rng.uniform(0.02, 0.4),
+    } as f32;
+    let limit = *rng.pick(&[1.0f32, 1.2, 2.0, 4.0, 4.0, 10.0, 50.0]);
+    let join = gen_join_kind(rng);
+    let (sc, ec) = (gen_cap(rng), gen_cap(rng));
+    let entry = match rng.below(10) {
+        0..=3 => 0,
+        4..=7 => 1,
+        _ => 2 + rng.below(4) as usize,
+    };
+    let variable = entry == 1 && rng.chance(2, 5);
+    let n_attr = if entry == 1 { rng.range(1, 3) as usize } else { 0 };
+    let mut options = StrokeOptions::tolerance(tol).with_line_width(width).with_line_join(join).with_start_cap(sc).with_end_cap(ec).with_miter_limit(limit);
+    if variable {
+        options = options.with_variable_line_width(0);
+    }
+    let thr = (tol * tol * 0.5).min(width * width * 0.05).max(1e-8f32);
+    let cmds = gen_program(rng, width, thr, variable, if entry >= 2 { Some(entry) } else { None });
+    let extra = [rng.uniform(-5.0, 5.0) as f32, rng.uniform(-5.0, 5.0) as f32];
+    let ops: Vec<Op> = cmds.iter().flat_map(|c| ops_of(c, n_attr, &extra)).collect();
+    let pieces = pieces_of(&ops, &options);
+    ProgInput { cmds, options, entry, n_attr, extra, ops, pieces }
+}
+
+fn prog_args(pi: &ProgInput) -> Out {
+    let o = &pi.options;
+    let mut args = Out::new();
+    args.f(o.tolerance).f(o.line_width).f(o.miter_limit).t(join_name(o.line_join)).t(cap_name(o.start_cap)).t(cap_name(o.end_cap));
+    args.b(o.variable_line_width.is_some()).u(pi.n_attr as u64).u(pi.ops.len() as u64);
+    put_ops(&mut args, &pi.ops);
+    args.t(PROG_ENTRY[pi.entry]);
+    args
+}
+
+fn prog_tag(family: &str, pi: &ProgInput) -> String {
+    let mut kinds: Vec<&str> = pi.pieces.iter().map(|p| p.kind).collect();
+    kinds.dedup();
+    let thin_then_join = pi.pieces.windows(2).any(|w| w[0].kind == "thin-rectangle" && w[1].kind != "thin-rectangle" && w[1].sub.segs.len() >= 2);
+    format!(
+        "{} {} {} {} subpaths={} setters={} [{}]{}{}",
+        family,
+        PROG_ENTRY[pi.entry],
+        join_name(pi.options.line_join),
+        if pi.options.variable_line_width.is_some() { "variable" } else { "fixed" },
+        pi.pieces.len(),
+        pi.ops.iter().filter(|o| matches!(o, Op::SetJoin(_) | Op::SetStartCap(_) | Op::SetEndCap(_) | Op::SetMiterLimit(_))).count(),
+        kinds.join(","),
+        if thin_then_join { " thin-then-joins" } else { "" },
+        if pi.pieces.is_empty() { " trivial" } else { "" }
+    )
+}
+
+fn to_recv(v: &hk::Vtx) -> RecV {
+    RecV { position: v.position, normal: v.normal, pop: v.position_on_path, line_width: v.line_width, advancement: v.advancement, side: v.side, source: v.source, attrs: v.attributes.clone() }
+}
+
+fn piece_input(p: &Piece) -> StrokeInput {
+    StrokeInput { subs: vec![p.sub.clone()], kind: p.kind.to_string(), polyline: p.sub.segs.iter().all(|g| matches!(g, Seg::Line(_))), simple: false }
+}
+
+/// the per-vertex clauses, sub-path by sub-path, each against the options in force for it
+fn check_pieces(orc: &mut Oracle, pi: &ProgInput, rec: &ProgRec) {
+    let o = &pi.options;
+    let thr = (o.tolerance * o.tolerance * 0.5).min(o.line_width * o.line_width * 0.05).max(1e-8f32);
+    let inputs: Vec<StrokeInput> = pi.pieces.iter().map(piece_input).collect();
+    let polys: Vec<Vec<Vec<(f64, f64)>>> = inputs.iter().map(|i| flatten64(i, 0.02 * o.tolerance as f64)).collect();
+    let total_len: f64 = polys.iter().map(|p| polys_length(p)).sum();
+    let scale = polys.iter().flatten().flatten().fold(1.0f64, |m, p| m.max(p.0.abs()).max(p.1.abs()));
+    let n_curves = pi.pieces.iter().flat_map(|p| p.sub.segs.iter()).filter(|g| !matches!(g, Seg::Line(_))).count();
+    let nv = rec.rec.vertices.len();
+    orc.check(rec.piece_of.iter().all(|k| (*k as usize) < pi.pieces.len()), "prog/vertex-within-subpath", "generic", || {
+        format!("a vertex was emitted after the last sub-path ended ({} sub-paths)", pi.pieces.len())
+    });
+    let mut k0 = 0usize;
+    while k0 < nv && !orc.failed() {
+        let pk = rec.piece_of[k0] as usize;
+        let mut k1 = k0;
+        while k1 < nv && rec.piece_of[k1] as usize == pk {
+            k1 += 1;
+        }
+        if pk >= pi.pieces.len() {
+            break;
+        }
+        let piece = &pi.pieces[pk];
+        let vs: Vec<RecV> = rec.rec.vertices[k0..k1].iter().map(to_recv).collect();
+        let mut endpoint_pos: std::collections::BTreeMap<u32, Point> = std::collections::BTreeMap::new();
+        let mut edges: Vec<(u32, u32, Vec<Point>)> = Vec::new();
+        let mut id = piece.first_id;
+        endpoint_pos.insert(id, piece.sub.start);
+        let mut prev = (id, piece.sub.start);
+        id += 1;
+        for g in &piece.sub.segs {
+            endpoint_pos.insert(id, g.to());
+            let ctrl = match g {
+                Seg::Line(p) => vec![prev.1, *p],
+                Seg::Quad(c, p) => vec![prev.1, *c, *p],
+                Seg::Cubic(c1, c2, p) => vec![prev.1, *c1, *c2, *p],
+            };
+            edges.push((prev.0, id, ctrl));
+            prev = (id, g.to());
+            id += 1;
+        }
+        // the options at the sub-path's end (its caps), the widest reach of any record in force while it was built
+        let mut eff = *piece.opts.last().unwrap();
+        for x in &piece.opts {
+            for y in &piece.opts {
+                let mut z = *x;
+                z.miter_limit = y.miter_limit;
+                // the witness class of finding C05-miter-clip-unscaled-fallback, whichever record made the join
+                if miter_clip_below_resolution(&inputs[pk], &z) {
+                    eff.line_join = LineJoin::MiterClip;
+                    eff.miter_limit = z.miter_limit;
+                }
+            }
+        }
+        // (an endpoint keeps the join kind in force when it was created, the miter limit is read when its join is
+        // computed - for the first point of a closed sub-path that is in close(): every combination of a record's
+        // join / caps with another record's miter limit can occur)
+        let mut factor = 0.0f64;
+        for x in &piece.opts {
+            for y in &piece.opts {
+                let mut z = *x;
+                z.miter_limit = y.miter_limit;
+                factor = factor.max(reach_factor(&z, inputs[pk].polyline, false));
+            }
+        }
+        let max_w = piece.sub.w.iter().fold(0.0f32, |m, w| m.max(*w));
+        check_vertices(
+            orc,
+            &vs,
+            &VCheck {
+                inp: &inputs[pk],
+                options: &eff,
+                factor,
+                endpoint_pos: &endpoint_pos,
+                edges: &edges,
+                polys: &polys[pk],
+                total_len,
+                scale,
+                max_w,
+                n_curves,
+                thr,
+                attrs_len: pi.n_attr,
+                index0: k0,
+            },
+        );
+        // every vertex reports the attributes of its source
+        if pi.n_attr > 0 && !orc.failed() {
+            let whole = StrokeInput { subs: pi.pieces.iter().map(|p| p.sub.clone()).collect(), kind: String::new(), polyline: false, simple: false };
+            let class = if degenerate_subpath_after_curve(&whole, thr) { "degenerate-subpath-after-curve" } else { "generic" };
+            let get = |id: EndpointId| (id.0 >= piece.first_id).then(|| piece.attrs.get((id.0 - piece.first_id) as usize).cloned()).flatten();
+            for (k, v) in rec.rec.vertices[k0..k1].iter().enumerate() {
+                let expect: Option<Vec<f32>> = match v.source {
+                    VertexSource::Endpoint { id } => get(id),
+                    VertexSource::Edge { from, to, t } => match (get(from), get(to)) {
+                        (Some(a), Some(b)) => Some(a.iter().zip(b.iter()).map(|(x, y)| x * (1.0 - t) + y * t).collect()),
+                        _ => None,
+                    },
+                };
+                let ok = match &expect {
+                    Some(e) => e.len() == v.attributes.len() && e.iter().zip(v.attributes.iter()).all(|(x, y)| x == y || ulp_close(*x, *y, 2.0)),
+                    None => false,
+                };
+                orc.check(ok, "fulle/attributes-match-source", class, || format!("vertex {} source {:?}: interpolated_attributes {:?}, expected {:?}", k0 + k, v.source, v.attributes, expect));
+            }
+        }
+        k0 = k1;
+    }
+}
+
+/// the id clauses on whatever a (possibly faulted) run emitted
+fn check_emitted_ids(orc: &mut Oracle, site: &str, rec: &ProgRec, what: &str) {
+    let nv = rec.rec.vertices.len() as u32;
+    for t in &rec.rec.triangles {
+        orc.check(tris_distinct(t), &format!("{}/distinct-ids", site), "generic", || format!("{}: {:?}", what, t));
+        orc.check(t.0 < nv && t.1 < nv && t.2 < nv, &format!("{}/valid-ids", site), "generic", || format!("{}: {:?} of {}", what, t, nv));
+    }
+    orc.check(rec.early.is_empty(), &format!("{}/ids-valid-when-emitted", site), "generic", || {
+        format!("{}: (a, b, c, ids handed out so far) {:?}", what, &rec.early[..rec.early.len().min(4)])
+    });
+}
+
+fn prog_case(ctx: &mut Ctx) {
+    ctx.case("prog:32", |rng| {
+        let pi = gen_prog_input(rng);
+        let mut args = prog_args(&pi);
+        let salt = rng.next();
+        let reused = salt % 3 == 0;
+        if reused {
+            args.t("reused-tessellator");
+        }
+        let tag = format!("{}{}", prog_tag("prog", &pi), if reused { " reused-tessellator" } else { "" });
+        (args, tag, move || {
+            let mut tess = StrokeTessellator::new();
+            if reused {
+                warm_up(&mut tess, salt);
+            }
+            let mut rec = ProgRec::new(Rc::new(Cell::new(0)), None);
+            let res = run_program(&mut tess, &pi.cmds, &pi.options, pi.entry, pi.n_attr, &pi.extra, &mut rec);
+            let mut o = Out::new();
+            let mut orc = Oracle::new();
+            orc.check(res.is_ok(), "prog/ok", "generic", || format!("{:?}", res));
+            put_full(&mut o, &rec.rec, true);
+            check_emitted_ids(&mut orc, "prog", &rec, "program");
+            if !orc.failed() {
+                check_pieces(&mut orc, &pi, &rec);
+            }
+            CaseOut { imp: o, orcl: orc.verdict }
+        })
+    });
+}
+
+/// a plain path through the iterator entry points with a given geometry builder
+fn run_plain(tess: &mut StrokeTessellator, inp: &StrokeInput, options: &StrokeOptions, entry: usize, n_attr: usize, extra: &[f32], rec: &mut ProgRec) -> Result<(), lyon_tessellation::TessellationError> {
+    let path = build_path(inp, n_attr, extra);
+    match entry {
+        0 => tess.tessellate_path(&path, options, rec),
+        1 => tess.tessellate(path.iter(), options, rec),
+        _ => tess.tessellate_with_ids(path.id_iter(), &path, Some(&path), options, rec),
+    }
+}
+
+fn progf_case(ctx: &mut Ctx) {
+    ctx.case("progf", |rng| {
+        // a program on the builder interface / a one-shot shape, or a plain path through tessellate*
+        let plain = rng.chance(1, 3);
+        let pi = gen_prog_input(rng);
+        let plain_entry = rng.below(3) as usize;
+        let variable = pi.options.variable_line_width.is_some();
+        let plain_n_attr = if variable { pi.n_attr.max(1) } else if plain_entry == 1 { 0 } else { rng.below(3) as usize };
+        let mut options = pi.options;
+        if plain && plain_entry == 1 {
+            options.variable_line_width = None;
+        }
+        let plain_inp = StrokeInput { subs: pi.pieces.iter().map(|p| p.sub.clone()).collect(), kind: String::new(), polyline: false, simple: false };
+        let mut args = prog_args(&pi);
+        let salt = rng.next();
+        if plain {
+            args.t(ENTRY[plain_entry]).u(plain_n_attr as u64);
+        }
+        let tag = format!(
+            "{}{}",
+            if plain { format!("progf plain {} {} subpaths={}", ENTRY[plain_entry], join_name(options.line_join), plain_inp.subs.len()) } else { prog_tag("progf", &pi) },
+            if salt % 3 == 0 { " reused-tessellator" } else { "" }
+        );
+        if salt % 3 == 0 {
+            args.t("reused-tessellator");
+        }
+        (args, tag, move || {
+            let run = |fault: Option<Fault>| -> Option<(ProgRec, bool)> {
+                vh::guarded(|| {
+                    let mut tess = StrokeTessellator::new();
+                    if salt % 3 == 0 {
+                        warm_up(&mut tess, salt);
+                    }
+                    let mut rec = ProgRec::new(Rc::new(Cell::new(0)), fault);
+                    let res = if plain {
+                        run_plain(&mut tess, &plain_inp, &options, plain_entry, plain_n_attr, &pi.extra, &mut rec)
+                    } else {
+                        run_program(&mut tess, &pi.cmds, &pi.options, pi.entry, pi.n_attr, &pi.extra, &mut rec)
+                    };
+                    (rec, res.is_ok())
+                })
+            };
+            let mut o = Out::new();
+            let mut orc = Oracle::new();
+            let n = match run(None) {
+                Some((rec, ok)) => {
+                    orc.check(ok, "progf/ok", "generic", || "the un-faulted run fails".to_string());
+                    check_emitted_ids(&mut orc, "progf", &rec, "no fault");
+                    rec.calls
+                }
+                None => {
+                    orc.check(false, "progf/no-panic", "generic", || "the un-faulted run panics".to_string());
+                    0
+                }
+            };
+            o.t("vertices").u(n as u64);
+            // every k below 64, a sample beyond; for each k: refuse once, twice, from then on
+            let mut r = Rng::new(salt, 0);
+            let mut ks: Vec<u32> = (0..n.min(64)).collect();
+            for _ in 0..8 {
+                if n > 64 {
+                    ks.push(64 + r.below((n - 64) as u64) as u32);
+                }
+            }
+            let mut runs = 0u64;
+            for k in ks {
+                for count in [1u32, 2, u32::MAX] {
+                    if orc.failed() {
+                        break;
+                    }
+                    let fault = Fault { at: k, count, too_many: r.chance(1, 2) };
+                    runs += 1;
+                    let what = format!("vertex calls {}..{} refused with {}", k, if count == u32::MAX { "".to_string() } else { format!("{}", k + count) }, if fault.too_many { "TooManyVertices" } else { "InvalidVertex" });
+                    match run(Some(fault)) {
+                        Some((rec, _)) => check_emitted_ids(&mut orc, "progf", &rec, &what),
+                        None => orc.check(false, "progf/no-panic", "generic", || what.clone()),
+                    }
+                }
+            }
+            o.t("runs").u(runs);
             CaseOut { imp: o, orcl: orc.verdict }
         })
     });
@@ -2064,6 +3177,12 @@ fn main() {
     }
     for _ in 0..ctx.n(400, 10000) {
         tinyw_case(&mut ctx);
+    }
+    for _ in 0..ctx.n(4000, 150000) {
+        prog_case(&mut ctx);
+    }
+    for _ in 0..ctx.n(1200, 40000) {
+        progf_case(&mut ctx);
     }
     ctx.finish();
 }
